@@ -161,6 +161,9 @@ def triangulate(polygon):
     polygon = [np.array(x) for x in polygon]
 
     normal = calculate_normal(polygon)
+    # Compare ear orientation relative to the size of the polygon itself so
+    # that the test does not depend on the length scale of the input.
+    scale = np.dot(normal, normal) if len(polygon[0]) == 3 else 1.0
     i = 0
     while len(polygon) > 2:
         if i >= len(polygon):
@@ -175,7 +178,7 @@ def triangulate(polygon):
         x = np.cross(c - b, b - a)
         dot = np.dot(normal, x)
         yld = False
-        if dot > 1E-6:
+        if dot > 1E-6 * scale:
             triangle = (a, b, c)
             if not any_point_in_triangle(triangle,
                                          looped_slice_inv(polygon, i, 3)):
